@@ -121,7 +121,13 @@ def run(ck, facts, tier):
         dayv, datev = LV(0, True), LV(1)
         it = ITER(1, [Poly.const(31), call(Poly.const(31))], Sym("m", "is_none", vkey(datev), ()), [dayv - Poly.const(1), call(dayv - Poly.const(1))])
         want = Sym("m", "unwrap", vkey(Sym("m", "and_hms_opt", vkey(Sym("m", "unwrap", vkey(it), ())), (Poly.const(0).key(),) * 3)), ())
-        ck.check(r4, "get_eom", vkey(got) == vkey(want), "get_eom is not: day := 31; while (year, month, day) is invalid { day := day - 1 }", "%s:%d" % (r["file"], r["line"]),
+        # the same search written with the probe inside the loop test (`loop { if let Some(d) = probe(day) { return .. } day -= 1 }`): only `day` is loop state
+        dvar = LV(0, True)
+        dayB = ITER(0, [Poly.const(31)], Sym("m", "is_none", vkey(call(dvar)), ()), [dvar - Poly.const(1)], True)
+        wantB = Sym("m", "unwrap", vkey(Sym("m", "and_hms_opt", vkey(Sym("payload", vkey(call(dayB)), 0)), (Poly.const(0).key(),) * 3)), ())
+        live = [v for _, v in paths.flatten(cel.strip_early(got)) if not (isinstance(v, Sym) and v.tag[:1] == ("diverges",))]
+        okB = len(live) == 1 and vkey(live[0]) == vkey(wantB)
+        ck.check(r4, "get_eom", vkey(got) == vkey(want) or okB, "get_eom is not: day := 31; while (year, month, day) is invalid { day := day - 1 }", "%s:%d" % (r["file"], r["line"]),
                  detail=cel.vfmt(got)[:500], sample="largest valid day <= 31 of the month, at midnight")
     except Unsupported as e:
         ck.fail(r4, "get_eom", "rule could not be established (%s)" % e)
